@@ -485,6 +485,32 @@ func c20(r *Report) {
 							}
 						}
 					}
+					arrLen := func(op ssa.Value) int64 {
+						n := int64(-1)
+						for v := range w.backSlice(op, flowOpt{}) {
+							if a, isA := v.(*ssa.Alloc); isA {
+								if arr, isArr := a.Type().(*types.Pointer).Elem().Underlying().(*types.Array); isArr {
+									n = arr.Len()
+								}
+							}
+						}
+						return n
+					}
+					for _, c := range plainCalls(rb, "encoding/hex.EncodeToString") {
+						// the whole boundary is the hex form of a fixed-size array
+						returned := false
+						for _, ret := range returns(rb) {
+							for _, l := range resolveAll(ret.Results[0]) {
+								if l == ssa.Value(c) {
+									returned = true
+								}
+							}
+						}
+						if n := arrLen(c.Call.Args[0]); returned && n >= 0 && maxLen == 0 {
+							known = true
+							maxLen = int(2 * n)
+						}
+					}
 					r.Decide("table", "M/body.randomBoundary: the default boundary is at most 70 characters long", known && maxLen >= 1 && maxLen <= 70, fmt.Sprintf("%d characters", maxLen), fmt.Sprintf("the generated boundary has %d characters (or an undeterminable length): multipart.Writer.SetBoundary refuses boundaries over 70, the parts are written with another boundary than the Content-Type announces, and no part of a multi-range answer can be decoded", maxLen), rb.Pos())
 				}
 			}
